@@ -765,9 +765,10 @@ def trace_to_labels(trace):
         elif ev[0] == 'resumed':
             labels.append(f'Resume {coq_z(ev[1])}')
             obs.append((1, ev[1], ev[2]))
-        elif ev[0] == 'cancel':
-            labels.append(f'Cancel {coq_z(ev[1])}')
         elif ev[0] == 'cancelled':
+            # the model's Cancel step is the moment the cancelled task runs (CancelledError leaves
+            # _send_command); the harness makes no delivery between task.cancel() and that moment
+            labels.append(f'Cancel {coq_z(ev[1])}')
             obs.append((3, ev[1], 0))
         elif ev[0] == 'failed':
             # the failing Acquire produced no 'send': insert it
@@ -873,7 +874,9 @@ def campaign_host(ctx):
         model_phases = sorted([c, ph if ph in (2, 3, 4) else None] for (c, ph, r) in mphases)
         if [tuple(x) for x in mobs] != obs or impl_phases != model_phases:
             ctx.disagree('HostCmd observations', replay, [mobs, model_phases], [obs, impl_phases])
-        all_done = all(st in ('done', 'cancelled') for op, st in callers.values())
+        resumed_with = {ev[1]: ev[2] for ev in trace if ev[0] == 'resumed'}
+        all_done = all(st == 'cancelled' or (st == 'done' and resumed_with.get(c) == op)
+                       for c, (op, st) in callers.items())
         if bool(mall) != all_done:
             ctx.disagree('HostCmd all_answered', replay, mall, all_done)
 
@@ -1499,7 +1502,7 @@ def run(ctx):
                 'with an unregistered opcode + random bytes mixed in; non-trivial: every case (a real Controller '
                 'answers); distinct by content. (B) 1-8 tasks x 1-3 commands through a real Host, controller = real '
                 'Controller or scripted replies with 1..255 credits behind two FIFOs drained on seeded loop turns; '
-                'non-trivial: >= 2 callers; plus every class through a real Host to a real Controller. (C) 32 named procedure '
+                'two cases in five with seeded task cancellations (queued caller, owner before/after its response, finished task); non-trivial: >= 2 callers; plus every class through a real Host to a real Controller. (C) 32 named procedure '
                 'scenarios on real controllers + LocalLink; random settled sequences of 7 procedure commands and 4 peer '
                 'actions on CUT + 2 peers compared event by event with Model/CtrlProc.v; non-trivial: >= 3 executed steps.')
     ctx.assumptions += [
@@ -1515,8 +1518,8 @@ def run(ctx):
         'tools/translate/c03_skeleton.py (AST -> skeleton; fail closed) and its reading of which calls send a '
         'Command Status / Command Complete event',
         'Model/HostCmd.v is a hand-written reading of host.py _send_command / on_command_processed / '
-        'on_hci_command_complete_event, tied to the code by trace acceptance only; asyncio.Semaphore is abstracted '
-        'to a boolean',
+        'on_hci_command_complete_event, tied to the code by trace acceptance only; asyncio.Semaphore is a permit '
+        'counter whose FIFO hand-over is left to the schedule; a cancellation is one atomic model step',
     ]
     from translate import c03_skeleton
     c03_skeleton.load_full_registry()
